@@ -113,4 +113,20 @@ CLAIMS = {
    note='As C08, plus: sync.RWMutex/WaitGroup as an abstract lock/join; the go/ast lock/access extractor; requests are independent because Handle only reads server state (exercised by concurrent requests, not proved from the source). Requires fix commits (rerr under the lock, de-duplication, struct field order). No axioms.',
    technique='Coq proof (all permutations of receipt order; lockset invariant) + lock-table extraction tie + race-detector batch search compared with the model',
    ref='5/C09'),
+ "C12": dict(
+   text="Coq theorems over ALL byte strings / archives, with a symbolic (universally quantified) hash: car.Decode delivers a block only "
+        "if its CID is Prefix().Sum of the delivered bytes (C12_integrity, every input); decode(encode) returns the roots and exactly "
+        "the blocks (C12_roundtrip: any sizes, duplicates, empty data, CIDv0/v1, any multihash); every cut strictly inside a section "
+        "yields the earlier blocks and then an error, a cut in the header a header error (C12_truncate*); replaced block data is an "
+        "error at that section unless it is a second preimage (C12_corrupt*: identity blocks unconditionally); version <> 1 is refused "
+        "(C12_header*). The model (LdRead/ReadNode/CidFromReader/Prefix.Sum/header dag-cbor, iterator continuing after errors) is "
+        "compared on every run with car.Encode byte for byte and with car.Decode on every truncation point, single-byte flips, "
+        "section splices, zero-length / over-long / non-minimal length prefixes, trailing garbage and header variants of random "
+        "archives and real request messages (10k decodes quick, 70-80k thorough), plus request/response.Decode message-vs-error.",
+   note="Targets the tree with fixes/C12_eof.diff (pinned tree: io.EOF inside a section ends the iteration silently -- reported as "
+        "VIOLATION key=eof-inside-section; C12_truncate_pinned_refuted). Trusted: Coq kernel; go-car/go-cid/go-multihash/encoding-binary "
+        "behaviour as modelled from source and validated by the correspondence; refmt on non-canonical header CBOR is an oracle; hash "
+        "collision-freedom is NOT assumed except in C12_corrupt_hashed (one pair); harness and reference walk. No axioms.",
+   technique="Coq proof (round trip, integrity for all inputs, truncation, corruption, header) + exhaustive-position differential correspondence",
+   ref="5/C12"),
 }
